@@ -18,7 +18,7 @@ pub fn vf_runtime_assert(c: bool)
 // afterwards (it does not run in release builds); code under `#[cfg(debug_assertions)]` / `cfg!(debug_assertions)` is
 // verified in both configurations through an arbitrary boolean.
 pub fn vf_debug_assert(c: bool)
-    requires c, //[C01:debug_assert.holds]
+    requires strict() ==> c, //[C01;C06,C07,C03:debug_assert.holds]
 { }
 #[verifier::external_body]
 pub fn vf_cfg_debug_assertions() -> bool { cfg!(debug_assertions) }
